@@ -1,6 +1,7 @@
 package props
 
 import (
+	"go/token"
 	"os"
 	"strings"
 
@@ -191,6 +192,39 @@ func c08() []*Ob {
 				if fn := c.Fn("(*disk.BlocksWriter).WriteBlocksRegistry"); fn != nil {
 					// all four effects succeed before success
 					AckCheck(c, fn, []Must{{Name: "Seek", M: Callee("(io.Seeker).Seek")}, {Name: "Write", M: Callee("(io.Writer).Write")}}, nil)
+				}
+			}},
+		{Prop: "C08", ID: "C08.7", Engine: "ACK+PROV(position)", Floor: 2,
+			Desc: "a block is where the registry says it is: BlocksWriter.WriteBlock returns success only after the Write of the block on the underlying writer has succeeded (nothing is left in a buffer of its own that a later, larger block could overtake), and the position it registers for the block, when it is taken from Seek, is that result unchanged — a registered position computed from the file position plus what is pending is wrong as soon as one block bypasses the buffer: Seal publishes an index whose blocks cannot be read, after the originals are gone",
+			Check: func(c *Ctx) {
+				fn := c.Fn("(*disk.BlocksWriter).WriteBlock")
+				if fn == nil {
+					return
+				}
+				AckCheck(c, fn, []Must{{Name: "Write", M: Callee("(io.Writer).Write")}}, nil)
+				hdrs := CallsIn(fn, Callee("disk.NewIndexBlockHeader"))
+				if len(hdrs) == 0 {
+					c.Note("WriteBlock no longer builds the block header through NewIndexBlockHeader; the position rule is not applied")
+				}
+				isSeek := func(v ssa.Value) bool {
+					cl, ok := v.(ssa.CallInstruction)
+					return ok && CallName(cl) == "(io.Seeker).Seek"
+				}
+				for _, h := range hdrs {
+					pos := Arg(h, 0)
+					if !DerivesFrom(pos, isSeek) {
+						c.Note("WriteBlock registers a position that is not taken from Seek; the position rule is not applied")
+						continue
+					}
+					arith := DerivesFrom(pos, func(v ssa.Value) bool {
+						bo, ok := v.(*ssa.BinOp)
+						return ok && (bo.Op == token.ADD || bo.Op == token.SUB) && DerivesFrom(bo, isSeek)
+					})
+					if arith {
+						c.Violation("prov:WriteBlock:position", h.Pos(), "the position WriteBlock registers for a block is computed from the file position instead of being the file position at which the block is written")
+					} else {
+						c.Site(h.Pos(), "the registered position is the result of Seek, unchanged")
+					}
 				}
 			}},
 		{Prop: "C08", ID: "C08.3", Engine: "DOM+ORDER", Floor: 2,
